@@ -49,6 +49,7 @@ try:
             res[p]["replay_excerpt"] = {kk: v.get(kk) for kk in ("kind", "operation", "implementation", "specification", "note", "no_failing_input", "probe_class") if kk in v}
 finally:
     subprocess.run(["git", "-C", "/repo", "checkout", "--", "."], check=True)
+        subprocess.run(["git", "-C", "/repo", "clean", "-fdq", "src", "tests"], check=True)
 meta["checks_quick"] = res
 meta["detected_by"] = [p for p, v in res.items() if v["rc"] == 1]
 meta["needs_to_manifest"] = notes[:1500]
